@@ -249,6 +249,23 @@ def attr_xsd(case):
                wild_decl(d['wild'])))
 
 
+def attr_ws_xsd(case):
+    """string-family attribute whose fixed value differs by white space between base and restriction"""
+    def decl(ty, fixed):
+        return '<xs:attribute name="s" type="%s"%s/>' % (ty, '' if fixed is None else ' fixed="%s"' % fixed)
+    return ('<xs:schema xmlns:xs="http://www.w3.org/2001/XMLSchema" targetNamespace="urn:t" xmlns:t="urn:t">'
+            '<xs:complexType name="B0"><xs:attribute name="s" type="xs:string"/></xs:complexType>'
+            '<xs:complexType name="B"><xs:complexContent><xs:restriction base="t:B0">%s</xs:restriction>'
+            '</xs:complexContent></xs:complexType>'
+            '<xs:complexType name="D"><xs:complexContent><xs:restriction base="t:B">%s</xs:restriction>'
+            '</xs:complexContent></xs:complexType>'
+            '<xs:element name="r" type="t:B"/><xs:element name="rd" type="t:D"/></xs:schema>'
+            % (decl(case['ws']['bt'], case['ws']['bf']), decl(case['ws']['dt'], case['ws']['df'])))
+
+
+# only white-space-collapsed values are probed: a lexical form that is collapsed by the restricted type but kept by the
+# base type is accepted by the former and not by the latter by the XSD normalisation rules themselves (not a narrowing fault)
+WS_INSTANCES = ['', 's="A B"', 's="AB"']
 ATTR_INSTANCES = ['', 'a="1"', 'a="01"', 'a="2"', 'a="x"', 't:g="1"', 't:g="x"', 'f:z="1"', 'a="1" t:g="1"',
                   'u="1"', 'a="1" f:z="q"']
 
@@ -259,12 +276,12 @@ def subject_attr(case):
     for version in ('1.0', '1.1'):
         cls = xmlschema.XMLSchema11 if version == '1.1' else xmlschema.XMLSchema10
         try:
-            s = cls(attr_xsd(case))
+            s = cls(attr_ws_xsd(case) if 'ws' in case else attr_xsd(case))
         except Exception as e:  # noqa
             out[version] = {'build': common.exc_class(e)}
             continue
         bad = []
-        for a in ATTR_INSTANCES:
+        for a in (WS_INSTANCES if 'ws' in case else ATTR_INSTANCES):
             try:
                 vd = s.is_valid('<t:rd xmlns:t="urn:t" xmlns:f="urn:f" %s/>' % a)
                 vb = s.is_valid('<t:r xmlns:t="urn:t" xmlns:f="urn:f" %s/>' % a)
@@ -280,7 +297,7 @@ def subject_attr(case):
 def check_attrs(ctx, cases):
     impl = common.pool_map(subject_attr, cases)
     for c, o in zip(cases, impl):
-        rep = {'kind': 'attr', 'case': c, 'impl': o, 'xsd': attr_xsd(c)}
+        rep = {'kind': 'attr', 'case': c, 'impl': o, 'xsd': attr_ws_xsd(c) if 'ws' in c else attr_xsd(c)}
         if 'harness_exception' in o:
             ctx.violation('subject failed: %s' % o['harness_exception'], rep, no_input=True)
             continue
@@ -289,6 +306,12 @@ def check_attrs(ctx, cases):
             ok = r['build'] == 'ok'
             ctx.count(('a', version, json.dumps(c, sort_keys=True)), nontrivial=ok, n=len(ATTR_INSTANCES) if ok else 1)
             ctx.dist('attribute_pairs', 'accepted' if ok else 'rejected')
+            if ok and r['bad'] and 'ws' in c:
+                a, why = r['bad'][0]
+                ctx.violation('attribute restriction %s fixed=%r -> %s fixed=%r is accepted (XSD %s) but attribute set [%s] is %s'
+                              % (c['ws']['bt'], c['ws']['bf'], c['ws']['dt'], c['ws']['df'], version, a, why),
+                              dict(rep, version=version, attrs=a, theorem='C14_attr_use_sound'))
+                continue
             if ok and r['bad']:
                 dw = c['d']['wild']
                 readmitted = (c['d']['use'] == 'prohibited' and c['b']['use'] != 'prohibited' and dw is not None
@@ -517,6 +540,12 @@ def gen(ctx):
                 c = make_model_case(base, d)
                 c['id'] = '%d_%d' % (i, len(redefs))
                 redefs.append(c)
+    # an element restricting a choice of that element and a wildcard that admits it (XSD 1.1 accepts such a base)
+    fam = [(o1, ns, o2, o3) for o1 in [(0, 2), (1, 2), (0, 1)] for ns in ('##any', '##targetNamespace')
+           for o2 in [(0, 2), (0, 1)] for o3 in [(1, 3), (1, 4), (1, 2), (0, 3), (2, 2)]]
+    for o1, ns, o2, o3 in (fam if not q else rng.sample(fam, 20)):
+        base = cm.G('seq', [cm.G('choice', [cm.E('a', o1), cm.W(ns, o2)], (1, 1)), cm.E('d', (0, None))], (1, 1))
+        models.append(make_model_case(base, cm.G('seq', [cm.E('a', o3)], (1, 1))))
     for bu in USES:
         for bf in (None, '1'):
             for du in USES + ['absent']:
@@ -528,6 +557,11 @@ def gen(ctx):
                             attrs.append({'b': {'use': bu, 'fixed': bf, 'wild': bw},
                                           'd': {'use': du, 'fixed': df, 'wild': dw,
                                                 'ty': rng.choice(['xs:integer', 'xs:integer', 'xs:byte', 'xs:decimal'])}})
+    for bt in ('xs:string', 'xs:normalizedString'):
+        for bf in ('A  B', ' A B', 'A B', None):
+            for dt in ('xs:string', 'xs:normalizedString', 'xs:token'):
+                for df in ('A B', 'A  B', ' A B', None):
+                    attrs.append({'ws': {'bt': bt, 'bf': bf, 'dt': dt, 'df': df}})
     for i in range(250 if q else 4000):
         ty = rng.choice(list(FACET_TYPES))
         vals = FACET_TYPES[ty][1]
